@@ -13,6 +13,20 @@ WORLD_RULE = ("state = canonical dump of the real PubSub/router/score object gra
 ALL_PROPERTIES = ["C%02d" % i for i in range(1, 21)]
 
 CHECKS = {
+    "C01": {
+        "level": "model_checking", "shards": 16, "deadline_quick": 110, "deadline_thorough": 2400,
+        "engine": "E-NET",
+        "technique": "exhaustive configuration enumeration + bounded exploration of link-delivery orders over several real nodes in one synctest bubble (harness-owned links hold every frame; the explorer picks the link that delivers next)",
+        "rule": "state = one settled network configuration (labelled connected topology x router per node x role per node x optional churn step x publisher); a transition is one complete run of the measured phase under one delivery order "
+                "(the canonical order or one deviation); every run is an execution of the real nodes; non-trivial = distinct canonical observation (per-subscription receive counts per configuration and delivery order)",
+        "level_text": "all labelled connected topologies on 2-3 nodes (quick: plus the six unlabelled 4-node topologies; thorough: all 38 labelled 4-node graphs) x every router vector over {floodsub, randomsub, gossipsub} x role vectors over "
+                      "{subscriber, two subscriptions, relay only, publisher only} x churn steps (cancel, unsubscribe-resubscribe inside the backoff, relay, relay-cancel, subscribe, connect, disconnect) x every publisher; the precondition "
+                      "(ListPeers / GetTopics equal ground truth after settling) is checked, then one publish is delivered under the canonical link order and under every single deviation from it, followed by HistoryGossip+2 heartbeats; "
+                      "every subscription must receive the message exactly once",
+        "level_note": "goroutine schedules inside a node between quiescent points are not enumerated; delivery-order deviations are bounded by 1; gossipsub uses D=2,Dlo=1,Dhi=3,Dlazy=6 so that peer selection is exhaustive at these sizes",
+        "assumptions": COMMON_ASSUME,
+        "design_ref": "DESIGN.md §5 C01",
+    },
     "C02": {
         "level": "model_checking", "variants": ["main", "sched"], "shards": 16, "deadline_quick": 110, "deadline_thorough": 1800,
         "engine": "E-SEQ (time cache) + E-WORLD + E-SCHED",
